@@ -1046,6 +1046,9 @@ def edge_sizes(tier, multiple_of=1, lo=2):
   if tier != "quick":
     out.update([100000, 100001, 99999, 65535, 65536, 65537, 60001, 80001])
   out = sorted(n for n in out if lo <= n <= top)
+  # beyond any table anybody tabulates, where a writer working in slabs / chunks of 2^17 or 2^18 rows would start its
+  # second slab (quick: one size past each; thorough: the neighbours as well and up to 2^21)
+  out += [131073, 262145] if tier == "quick" else [131071, 131072, 131073, 200001, 262143, 262144, 262145, 524289, 1000001, 1048577, 2097153]
   if multiple_of > 1:
     out = sorted(set((n // multiple_of) * multiple_of for n in out if n >= multiple_of) | set(((n // multiple_of) + 1) * multiple_of for n in out))
   return out
@@ -1108,6 +1111,27 @@ def hyphenated_species_model(rng, kind, target):
   for k_ in m["all_species"]:
     m.setdefault("species", {}).setdefault(k_, {}).setdefault("atomic_number", 13)
     m["species"][k_].setdefault("atomic_mass", 26.98)
+  return m
+
+
+def ion_labels(rng, model):
+  """The same model with its species labelled as ions ('F-', 'Cl-', 'Na+', 'Ca2+'): a label that ENDS in a hyphen next to
+  the arrow of an 'A->B' key reads 'F-->Ca'.  Labels ending in a hyphen cannot be written in 'A-B' keys, so pair-like
+  entries involving them are dropped (those pairs are then undeclared = zero).  Every label gets [Species] data."""
+  pool = ["F-", "Na+", "Cl-", "Ca2+", "O-", "K+"]
+  rng.shuffle(pool)
+  if not any(x.endswith("-") for x in pool[:max(1, len(model.get("all_species") or []))]):
+    pool.insert(0, "F-")
+  names = list(model.get("all_species") or [])
+  mapping = {n_: pool[i % len(pool)] for i, n_ in enumerate(names)}
+  m = rename_species(model, mapping)
+  for key in ("pair", "dipole", "quadrupole"):
+    if m.get(key):
+      m[key] = [e for e in m[key] if not (e[0].endswith("-") or e[1].endswith("-") or "-" in e[0][:-1] or "-" in e[1][:-1])]
+  for i, k_ in enumerate(m["all_species"]):
+    d = m.setdefault("species", {}).setdefault(k_, {})
+    d.setdefault("atomic_number", 9 + i)
+    d.setdefault("atomic_mass", 19.0 + i)
   return m
 
 
